@@ -204,6 +204,7 @@ def _check_script_reader(ctx):
     p = ctx.p
     fi = p.get_function('script.Script.parse')
     pre, loop, post = _find_while(fi)
+    LEN = None
     with ctx.obligation('C19.READER', 'Script.parse loop body', None, fi.where) as ob, \
             ctx.obligation('C19.ACCT', 'Script.parse loop body', None, fi.where) as oba, \
             ctx.obligation('C19.READ', 'Script.parse', None, fi.where) as obr:
@@ -301,6 +302,8 @@ def _check_script_reader(ctx):
             terms_ = [v for k, v in env2.items() if k != STREAM]
             obr.require(_read_ok(ev, r, n, terms_, known_at(facts2, ())),
                         'opcode byte read is used without a length check', '%s:%d' % (fi.module.relpath, line))
+    if LEN is None:
+        return      # the loop state was not identified (reported above as UNDECIDED)
     _check_early_returns(ctx, fi, pre, LEN)
     # epilogue: count != length is refused, result wraps the command list
     with ctx.obligation('C19.ACCT-FINAL', 'Script.parse epilogue', None, fi.where) as ob:
